@@ -51,6 +51,10 @@ def build(V, cfg):
     wn.get_node('J1').add_demand(1.0, 'B', 'b')
     wn.add_junction('J2', base_demand=1.0, demand_pattern='B', elevation=7.0, demand_category='b')
     wn.add_junction('J3', base_demand=1.0, elevation=2.0)
+    if cfg.get('nC'):
+        # a third pattern that reaches its junction through the demand list itself (the route the [DEMANDS] reader takes)
+        wn.add_pattern('C', [1.0] * cfg['nC'])
+        wn.get_node('J3').demand_timeseries_list.append((1.0, 'C', 'c'))
     wn.add_pipe('P1', 'R1', 'J1', length=100.0, diameter=0.3)
     wn.add_pipe('P2', 'J1', 'J2', length=200.0, diameter=0.2)
     wn.add_pipe('P3', 'J2', 'T', length=300.0, diameter=0.25)
@@ -63,7 +67,7 @@ def build(V, cfg):
     wn.add_valve('V1', 'J3', 'J2', 0.3, 'PRV', 0.0, 20.0)
     wn.add_valve('V2', 'J1', 'J2', 0.3, 'TCV', 0.0, 20.0)
     info = {'dt': dt, 'patterns': {}, 'demands': {}}
-    for pn, n in (('A', nA), ('B', nB)):
+    for pn, n in (('A', nA), ('B', nB)) + ((('C', cfg['nC']),) if cfg.get('nC') else ()):
         ms = [V.real('m%s%d' % (pn, i), -5, 5) for i in range(n)]
         arr = np.empty(n, dtype=object)
         for i, m in enumerate(ms):
@@ -187,6 +191,7 @@ AVG_CFGS_QUICK = [
     dict(nA=7, nB=2, dt=3600, ps=0, cat=None),
     dict(nA=5, nB=3, dt=7200, ps=5400, cat='a'),
     dict(nA=24, nB=4, dt=3600, ps=0, cat=None),
+    dict(nA=2, nB=3, nC=7, dt=3600, ps=0, cat=None),
 ]
 AVG_CFGS_THOROUGH = AVG_CFGS_QUICK + [
     dict(nA=36, nB=5, dt=3600, ps=0, cat=None),
@@ -235,7 +240,7 @@ def replay_average(i):
         o = oracle_average(info, j, cfg)
         if not close(ser[j], o, 1e-9, 1e-12):
             return 'average_expected_demand[%s] = %r but the mean over one common period (%d pattern steps) is %r' % (
-                j, ser[j], math.lcm(cfg['nA'], cfg['nB']), o)
+                j, ser[j], math.lcm(cfg['nA'], cfg['nB'], cfg.get('nC') or 1), o)
     return None
 
 
